@@ -291,7 +291,14 @@ def py_check(case, o):
         p, q = x.split(b"|"), y.split(b"|")
         if len(p) != 3 or len(q) != 3 or p[2] != q[2] or name_b + p[0] + p[1] != n0 + q[0] + q[1]:
             return False
-        return o == B(h["value"]) if (x == y and name_b == n0) else True
+        if not (p[1].isdigit() and p[1].isascii()) or p[1].startswith(b"0"):
+            return False       # accepted timestamp field must be canonical decimal
+        t, t0 = int(p[1]), h["t"]
+        if not (now - maxage <= t <= now + 31 * DAY):
+            return False
+        if name_b != n0:
+            return True        # format-1 cross-name re-split (documented weakness)
+        return (p[0] == q[0] and o == B(h["value"])) or 2 * t0 < t or 2 * t < t0
     return False
 
 
@@ -422,6 +429,10 @@ def crafted_v1(rng, key, S, name, n):
     return out
 
 
+V1_RESPLIT_VALUES = [b"abc\xfb\x4d\x34", base64.b64decode(b"QUJD1234"), b"abcdef", base64.b64decode(b"12345678"), base64.b64decode(b"AB+/12//"),
+                     base64.b64decode(b"++++0000"), base64.b64decode(b"ab/+"), base64.b64decode(b"0000"), b"a", b"ab", base64.b64decode(b"AAA+"),
+                     base64.b64decode(b"1_2+"[:1] + b"A2+"), base64.b64decode(b"////")]
+
 ARBITRARY = [b"", b"abc", b"|", b"||", b"|||", b"2|", b"2", b"1|", b"1|a|b", b"2|0:|0:|0:|0:|", b"2|1:0|10:1300000000|1:n|4:YWJj|", b"999|", b"1000|",
              b"3|1:0|", b"0|a", b"02|a", b"2|\n", b"2|a\nb", b"2|a\n", b"2\n|a", b"12|", b"1234|1|2", b"2|1:0", b"2|1:0|", b"2|:|", b"2|-1:|",
              b"2|-2:a|b", b"2|1:0|1:1|1:n|0:|", b"2|9999999999999999999999:0|", b"a|1|" + b"0" * 40, b"|1|", b"YWJj|1300000000|", b"2|1:0|10:1300000000|1:n|4:YWJj",
@@ -447,6 +458,12 @@ def corpus_cases():
     q0, q1, sg3 = ref_create(o3)[0].split(b"|")
     out.append(mk_decode(sk, "n" + q0[:4].decode(), q0[4:] + b"|" + q1 + b"|" + sg3, 31 * DAY, T0, 1, o3, "corpus-v1-cross-name"))
     out.append(mk_decode(sk, "n", b"2|" + b"1" * 10, 31 * DAY, T0, 3, None, "corpus-minv3"))
+    # bf2e153: base64 tail '+000' moved across the pipe; int("+0001300000000") == 1300000000
+    o4 = origin(sk, "n", b"abc\xfb\x4d\x34", 1, T0, None)
+    r0, r1, sg4 = ref_create(o4)[0].split(b"|")
+    assert r0 == b"YWJj+000"
+    out.append(mk_decode(sk, "n", b"YWJj|+000" + r1 + b"|" + sg4, 31 * DAY, T0, 1, o4, "corpus-v1-plus-resplit"))
+    out.append(mk_decode(sk, "n", b"YWJj+|000" + r1 + b"|" + sg4, 31 * DAY, T0, 1, o4, "corpus-v1-plus-resplit"))
     out += newline_name_cases()                                                                                              # 6426f2d
     return out
 
@@ -578,21 +595,35 @@ def gen_cases(rng, tier):
             x = y[: rng.randrange(len(y))]
         if x != y:
             out.append(mk_decode(o["secret"], o["name"], x, 31 * DAY, o["t"], 1, o, "swap"))
-    # v1 re-splits (no delimiter is hashed in format 1)
-    for v, shifts in ((base64.b64decode(b"QUJD1234"), range(-4, 5)), (b"abcdef", range(-8, 9)), (base64.b64decode(b"12345678"), range(-8, 9))):
-        o = origin(S_str(b"k"), "nm", v, 1, T0, None)
-        p0, p1, sg = ref_create(o)[0].split(b"|")
-        body = p0 + p1
-        for sh in shifts:
-            cut = len(p0) + sh
-            if 0 <= cut <= len(body):
+    # v1 re-splits (no delimiter is hashed in format 1): move base64 characters ('+', '/', digits,
+    # letters, '=') and timestamp digits across the first pipe, and timestamp/signature characters
+    # across the second pipe; clocks both realistic and placed on the re-split timestamp
+    for v in V1_RESPLIT_VALUES:
+        for t0 in (T0, 7):
+            o = origin(S_str(b"k"), "nm", v, 1, t0, None)
+            p0, p1, sg = ref_create(o)[0].split(b"|")
+            body = p0 + p1
+            for sh in range(-8, 9):
+                cut = len(p0) + sh
+                if not 0 <= cut <= len(body):
+                    continue
                 x = body[:cut] + b"|" + body[cut:] + b"|" + sg
-                for now in (T0, int(body[cut:] or b"0") if body[cut:].isdigit() else T0):
+                nows = {t0}
+                try:
+                    nows.add(int(body[cut:]))
+                except ValueError:
+                    pass
+                for now in sorted(nows):
                     out.append(mk_decode(S_str(b"k"), "nm", x, rng.choice([31 * DAY, 10 ** 12]), now, 1, o, "v1-resplit"))
-        for k in (1, 4, 8):
-            if k <= len(p0):
-                out.append(mk_decode(S_str(b"k"), "nm" + p0[:k].decode(), p0[k:] + b"|" + p1 + b"|" + sg, 31 * DAY, T0, 1, o, "v1-cross-name"))
-        out.append(mk_decode(S_str(b"k"), "n", b"m" + p0 + b"|" + p1 + b"|" + sg, 31 * DAY, T0, 1, o, "v1-cross-name"))
+            tail = p1 + sg
+            for sh in (-3, -2, -1, 1, 2, 3):
+                cut = len(p1) + sh
+                x = p0 + b"|" + tail[:cut] + b"|" + tail[cut:]
+                out.append(mk_decode(S_str(b"k"), "nm", x, 10 ** 12, t0, 1, o, "v1-resplit-sig"))
+            for k in (1, 4, 8):
+                if k <= len(p0):
+                    out.append(mk_decode(S_str(b"k"), "nm" + p0[:k].decode(), p0[k:] + b"|" + p1 + b"|" + sg, 31 * DAY, t0, 1, o, "v1-cross-name"))
+            out.append(mk_decode(S_str(b"k"), "n", b"m" + p0 + b"|" + p1 + b"|" + sg, 31 * DAY, t0, 1, o, "v1-cross-name"))
 
     # ---- decode: key-holder-crafted lax encodings ----
     n = 150 if not full else 1500
